@@ -7,11 +7,19 @@ VARIABLES l, nontriv, failed
 vars == <<l, nontriv, failed>>
 
 Numeric(dt) == dt \in {"NM", "SI"}
+(* HL7 NM: "an optional leading sign (+ or -), the digits and an optional decimal point" - whatever is taken as the     *)
+(* number, the sign in front of it is optional: accepting a body and accepting it signed go together.  e.plus / e.minus *)
+(* = outcome for the same text with a sign in front ("n/a": the text is signed already, or another route)               *)
+Decided(o) == o \in {"value", "ValueError"}
+SignLaw(e) == e.dt = "NM" /\ e.lvl = "S" /\ Decided(e.outcome) =>
+                 /\ (Decided(e.plus) => (e.plus = "value") = (e.outcome = "value"))
+                 /\ (Decided(e.minus) => (e.minus = "value") = (e.outcome = "value"))
 Verdict(e) ==
   LET ok == Is(e.dt, e.in)
       long == Len(e.in) > MaxLen(e.dt)
   IN
-  IF e.lvl = "S"
+  IF ~SignLaw(e) THEN "a_sign_in_front_changes_acceptance"
+  ELSE IF e.lvl = "S"
   THEN IF Unspecified(e.dt, e.in) THEN "ok"
        ELSE IF ok /\ long THEN (IF e.outcome = "MaxLengthReached" THEN "ok" ELSE "overlong_value_not_rejected_with_MaxLengthReached")
        ELSE IF ok /\ e.outcome # "value" THEN "valid_value_rejected"
